@@ -117,6 +117,8 @@ def pre_len(events) -> int:
 
 
 def parse_snap(s):
+    if s == "!":
+        return {"log": [], "out": "!", "futs": [], "nt": "nt0", "ph": "?"}
     lg, out, futs, nt, ph = [x.strip() for x in s.split("|")]
     return {"log": [] if lg == "-" else lg.split(","), "out": out, "futs": futs.split(), "nt": nt, "ph": ph}
 
@@ -454,6 +456,10 @@ def correspondence(ctx, prop, cases, theorem):
         real = real_single(c, m)
         ctx.traces += 1
         model = o.split(" ;; ")
+        if prop == "C03":
+            if not has_cancel(c):
+                continue
+            real, model = mask_flags(real), mask_flags(model)
         if real != model:
             bad.append((c, m, model, real))
     return bad
@@ -470,6 +476,34 @@ def first_diff(model, real):
 # the run
 
 
+def without_cancel(case):
+    if case.get("kind") == "multi":
+        return {**case, "env": [x for x in case["env"] if x[0][0] != "cancel"]}
+    c = {**case, "script": [e for e in case["script"] if e[0] != "cancel"]}
+    if c["variant"] == "eager_ctx":
+        c["variant"] = "eager"
+    return expand(c)
+
+
+def has_cancel(case) -> bool:
+    if case.get("kind") == "multi":
+        return any(e[0] == "cancel" for e, imm in case["env"])
+    return any(e[0] == "cancel" for e in case["events"])
+
+
+def mask_flags(snaps):
+    """C03 compares everything but the blocking flags (the handshake is C01's subject)"""
+    out = []
+    for s in snaps:
+        parts = s.split(" | ")
+        if len(parts) < 3:
+            out.append(s)
+            continue
+        parts[2] = " ".join(f[:-2] + "." + f[-1] for f in parts[2].split())
+        out.append(" | ".join(parts))
+    return out
+
+
 def case_text(case):
     return json.dumps({k: v for k, v in case.items() if k not in ("marks", "events")}, sort_keys=True)
 
@@ -482,9 +516,22 @@ def check_single(ctx, prop, case, theorem, record=True):
         return True
     what = res[0]
 
-    def fails(c):
+    def fails0(c):
         r, _ = oracle_single(c)
-        return r is not None and r[0].split(":")[0] == what.split(":")[0]
+        return r is not None
+
+    if prop == "C03":
+        # C03 owns a failure only when a cancel() is necessary for it (the rest is C01's subject)
+        if not has_cancel(case) or fails0(without_cancel(case)):
+            ctx.tag("failure-without-cancel(not C03's: see C01)")
+            return True
+
+        def fails(c):
+            return has_cancel(c) and fails0(c) and not fails0(without_cancel(c))
+    else:
+        def fails(c):
+            r, _ = oracle_single(c)
+            return r is not None and r[0].split(":")[0] == what.split(":")[0]
 
     small = shrink_single(case, fails)
     r2, _ = oracle_single(small)
@@ -504,12 +551,27 @@ def check_multi(ctx, prop, case, theorem, record=True):
         return True
     what = res[0]
 
-    def fails(c):
+    def fails0(c):
         try:
             r, _ = oracle_multi(c)
         except Exception:
             return False
-        return r is not None and r[0] == what
+        return r is not None
+
+    if prop == "C03":
+        if not has_cancel(case) or fails0(without_cancel(case)):
+            ctx.tag("failure-without-cancel(not C03's: see C01)")
+            return True
+
+        def fails(c):
+            return has_cancel(c) and fails0(c) and not fails0(without_cancel(c))
+    else:
+        def fails(c):
+            try:
+                r, _ = oracle_multi(c)
+            except Exception:
+                return False
+            return r is not None and r[0] == what
 
     small = shrink_multi(case, fails)
     r2, _ = oracle_multi(small)
@@ -607,3 +669,61 @@ def replay_case(ctx, prop, theorem, data):
             d = first_diff(model, real)
             ctx.disagreement(f"model and implementation differ at snapshot {d[0]}", c,
                              expected=d[1], observed=d[2], theorem=theorem)
+
+
+# ---------------------------------------------------------------------------------------
+# bounded-exhaustive part of the thorough tier
+
+
+def exhaustive(ctx, prop, theorem, with_cancel):
+    """all bodies of <= 3 statements over a small alphabet (+ each wrapped in a cancel-aware try) x all
+    windows of <= 2 events before the first loop iteration x {nothing, resolve, cancel} afterwards"""
+    atoms = [["A", 0], ["A", 1], ["S"], ["L", 1], ["R", 7], ["X", "E1"], ["X", "B1"]]
+    bodies = [[]]
+    for n in (1, 2, 3):
+        for combo in itertools.product(atoms, repeat=n):
+            if any(c[0] in ("R", "X") for c in combo[:-1]):
+                continue
+            bodies.append([list(c) for c in combo])
+    wrapped = []
+    for bdy in bodies:
+        if 0 < len(bdy) <= 2:
+            wrapped.append([["T", bdy, "CA", True, [["L", 2]], [["L", 3]]]])
+            wrapped.append([["T", bdy, "BA", False, [["A", 1]], []]])
+    win_events = [["res", 0, 4], ["fail", 0, "E1"], ["cf", 0], ["clr", 0], ["res", 1, 5]]
+    if with_cancel:
+        win_events.append(["cancel"])
+    windows = [[]] + [[e] for e in win_events] + [[a, b] for a in win_events for b in win_events]
+    tails = [[], [["res", 0, 4], ["settle"], ["res", 1, 5], ["settle"]]]
+    if with_cancel:
+        tails.append([["res", 0, 4], ["cancel"], ["settle"]])
+        tails.append([["cancel"], ["cancel"], ["settle"], ["res", 1, 5], ["settle"]])
+    batch = []
+    futsets = [["P", "P"], ["P", "V3"], ["T", "P"]]
+    n = 0
+    for bdy in bodies + wrapped:
+        for w in windows:
+            for t in tails:
+                for fs in futsets:
+                    n += 1
+                    if n % 3 != ctx.seed % 3 and len(bdy) == 3:
+                        continue        # a third of the largest bodies per seed
+                    case = expand({"kind": "single", "prog": bdy, "futs": fs,
+                                   "script": w + [["settle"]] + t, "variant": "eager"})
+                    check_single(ctx, prop, case, theorem)
+                    batch.append((case, "E"))
+                    if len(batch) >= 4000:
+                        _flush(ctx, prop, theorem, batch)
+                        batch = []
+    _flush(ctx, prop, theorem, batch)
+    ctx.tag("exhaustive-cases", n)
+
+
+def _flush(ctx, prop, theorem, batch):
+    bad = correspondence(ctx, prop, batch, theorem)
+    for c, m, model, real in bad[:3]:
+        d = first_diff(model, real)
+        ctx.disagreement(f"model and implementation differ at snapshot {d[0]} (mode {m}); body\n"
+                         + L.source(c["prog"]), {**c, "mode": m}, expected=d[1], observed=d[2],
+                         theorem=theorem)
+        neighbourhood(ctx, prop, c, theorem)
